@@ -421,4 +421,118 @@ Proof.
   split; [exact Hl5C|exact Hl5I].
 Qed.
 
+(* ---- the `with` clause on its own (after the count is known): used by the light loops ---- *)
+Definition plain_with (w : loop_with) : bool :=
+  match w with WRange _ a b => plain_rval mt a && plain_rval mt b | WCycle _ start => plain_opt start end.
+Definition with_var (w : loop_with) : string := match w with WRange v _ _ => v | WCycle v _ => v end.
+
+Lemma c_with_var w : snd (c_with rt mt w) = with_var w.
+Proof. destruct w; reflexivity. Qed.
+Lemma c_with_no_routine w : plain_with w = true -> forallb not_routine (fst (c_with rt mt w)) = true.
+Proof.
+  destruct w as [v a b|v start]; cbn [plain_with c_with fst]; intros H.
+  - apply andb_true_iff in H. destruct H as [Ha Hb]. rewrite !forallb_app, (c_rval_lv_no_routine rt mt LV_FIRST a Ha), (c_rval_lv_no_routine rt mt LV_LAST b Hb). reflexivity.
+  - rewrite !forallb_app. destruct start as [a|]; [cbn [plain_opt] in H; rewrite (c_rval_lv_no_routine rt mt LV_FIRST a H)|]; reflexivity.
+Qed.
+
+Lemma c_with_range_len v a b : zlength (fst (c_with rt mt (WRange v a b))) = zlength (c_rval rt mt a (DLoop LV_FIRST)) + zlength (c_rval rt mt b (DLoop LV_LAST)) + 16.
+Proof. cbn [c_with fst]. unfold zlength. rewrite !app_length, !Nat2Z.inj_add. change (Z.of_nat (length calc_incr)) with 15. cbn [length]. lia. Qed.
+Lemma c_with_cycle_len v start : zlength (fst (c_with rt mt (WCycle v start))) = zlength (cycle_first start) + 17.
+Proof.
+  assert (H : fst (c_with rt mt (WCycle v start)) = cycle_first start ++ [I2 OC_MOVE (PLoopVar LV_FIRST) (PStr v)] ++ cycle_incr) by reflexivity.
+  rewrite H. unfold zlength. rewrite !app_length, !Nat2Z.inj_add. change (Z.of_nat (length cycle_incr)) with 16. cbn [length]. lia.
+Qed.
+
+Lemma with_prep w : plain_with w = true ->
+  forall im ss s cnt vi s1 f lv d r,
+  sim ss s -> m_frames s = FLoop lv d :: r -> lv_get lv LV_COUNTER = Some cnt -> lv_get lv LV_INCR = None ->
+  code_at im (m_pc s) (fst (c_with rt mt w)) -> prep_with rt mt f false ss cnt w = ROk vi s1 ->
+  fst vi = with_var w /\ s_trace s1 = s_trace ss /\
+  exists n s' lv' r', esteps n im s = Some (s', []) /\ sim s1 s' /\ m_pc s' = m_pc s + zlength (fst (c_with rt mt w)) /\
+                      m_frames s' = FLoop lv' d :: r' /\ erase r' = erase r /\ m_stack s' = m_stack s /\
+                      lv_get lv' LV_COUNTER = Some cnt /\ lv_val lv' LV_INCR = snd vi.
+Proof.
+  intros Hpw im ss s cnt vi s1 f lv d r Hsim Hfr HlC HlI Hc He.
+  destruct f as [|f]; [discriminate|].
+  destruct w as [v a b|v start]; [rewrite c_with_range_len|rewrite c_with_cycle_len]; cbn [plain_with c_with fst with_var] in *.
+  - (* from a to b *)
+    apply andb_true_iff in Hpw. destruct Hpw as [Ha Hb]. rewrite prep_with_range in He.
+    set (CA := c_rval rt mt a (DLoop LV_FIRST)) in *. set (CB := c_rval rt mt b (DLoop LV_LAST)) in *.
+    set (kA := zlength CA) in *. set (kB := zlength CB) in *.
+    apply code_at_app in Hc. destruct Hc as [HcA Hc]. apply code_at_app in Hc. destruct Hc as [HcB Hc]. apply code_at_app in Hc. destruct Hc as [Hmv Hci].
+    cbn [code_at] in Hmv. destruct Hmv as [Hfm _]. rewrite zlength1 in Hci. fold kA in HcB, Hfm, Hci. fold kB in Hfm, Hci.
+    destruct (eval_rval rt mt f false ss a) as [x sa|e sa|sa] eqn:Eva; cbn [sbind] in He; try discriminate.
+    destruct (lv_init rt mt LV_FIRST a Ha im ss s x sa f lv d r Hsim Hfr HcA Eva) as [-> [nA EA]]. fold CA in EA. fold kA in EA.
+    set (sa := with_lv s LV_FIRST x kA) in *.
+    assert (Hsa : sim ss sa) by (apply sim_with_lv; exact Hsim).
+    assert (Hfra : m_frames sa = FLoop (lv_set lv LV_FIRST x) d :: r) by (unfold sa; cbn [with_lv m_frames]; rewrite Hfr; reflexivity).
+    destruct (eval_rval rt mt f false ss b) as [y sb|e sb|sb] eqn:Evb; cbn [sbind] in He; try discriminate.
+    assert (HcBa : code_at im (m_pc sa) CB) by exact HcB.
+    destruct (lv_init rt mt LV_LAST b Hb im ss sa y sb f _ d r Hsa Hfra HcBa Evb) as [-> [nB EB]]. fold CB in EB. fold kB in EB.
+    set (sb := with_lv sa LV_LAST y kB) in *.
+    assert (Hsb : sim ss sb) by (apply sim_with_lv; exact Hsa).
+    set (lv2 := lv_set (lv_set lv LV_FIRST x) LV_LAST y) in *.
+    assert (Hfrb : m_frames sb = FLoop lv2 d :: r) by (unfold sb; cbn [with_lv m_frames]; rewrite Hfra; reflexivity).
+    assert (Hl2C : lv_get lv2 LV_COUNTER = Some cnt) by (unfold lv2; rewrite !lv_get_set_other by reflexivity; exact HlC).
+    assert (Hl2F : lv_get lv2 LV_FIRST = Some x) by (unfold lv2; rewrite lv_get_set_other by reflexivity; apply lv_get_set).
+    assert (Hl2L : lv_get lv2 LV_LAST = Some y) by (unfold lv2; apply lv_get_set).
+    destruct (interp_calc cnt x y) as [incr|e] eqn:Ecalc; [|discriminate]. injection He as <- <-.
+    assert (Hfmb : fetch im (m_pc sb) = Some (I2 OC_MOVE (PLoopVar LV_FIRST) (PStr v))) by exact Hfm.
+    destruct (move_first_step im ss sb v lv2 d r x Hsb Hfrb Hl2F Hfmb) as (sc & r' & Ec & Hsc & Hpcc & Hfrc & Her' & Hstc).
+    assert (Hcic : code_at im (m_pc sc) calc_incr) by (rewrite Hpcc; exact Hci).
+    destruct (calc_incr_steps im (assign ss v x) sc lv2 d r' cnt x y incr Hsc Hfrc Hl2C Hl2F Hl2L Ecalc Hcic)
+      as (n5 & s5 & lv5 & E5 & Hs5 & Hpc5 & Hfr5 & Hst5 & Hl5C & Hl5I).
+    split; [reflexivity|]. split; [exact (proj2 (proj2 (assign_other_fields ss v x)))|].
+    exists (nA + (nB + (1 + n5)))%nat, s5, lv5, r'.
+    split.
+    { replace (@nil event) with (@nil event ++ (@nil event ++ (@nil event ++ @nil event))) by reflexivity.
+      eapply esteps_app; [exact EA|eapply esteps_app; [exact EB|eapply esteps_app; [exact Ec|exact E5]]]. }
+    split; [exact Hs5|].
+    split.
+    { rewrite Hpc5, Hpcc. unfold sb, sa. cbn [with_lv m_pc]. fold CA. fold CB. fold kA. fold kB. lia. }
+    split; [exact Hfr5|]. split; [exact Her'|]. split; [rewrite Hst5, Hstc; reflexivity|].
+    split; [exact Hl5C|]. cbn [snd]. unfold lv_val. rewrite Hl5I. reflexivity.
+  - (* cycle *)
+    rewrite prep_with_cycle in He. fold (cycle_first start) in Hc |- *.
+    set (CA := cycle_first start) in *. set (kA := zlength CA) in *.
+    apply code_at_app in Hc. destruct Hc as [HcA Hc]. apply code_at_app in Hc. destruct Hc as [Hmv Hci].
+    cbn [code_at] in Hmv. destruct Hmv as [Hfm _]. rewrite zlength1 in Hci. fold kA in Hfm, Hci.
+    assert (Hfirst : exists x nA, (match start with Some a => eval_rval rt mt f false ss a | None => ROk (VInt 0) ss end) = ROk x ss /\
+                                  esteps nA im s = Some (with_lv s LV_FIRST x kA, [])).
+    { destruct start as [a|].
+      - cbn [plain_opt] in Hpw. destruct (eval_rval rt mt f false ss a) as [x sa|e sa|sa] eqn:Eva; cbn [sbind] in He; try discriminate.
+        assert (HcA0 : code_at im (m_pc s) (c_rval rt mt a (DLoop LV_FIRST))) by exact HcA.
+        destruct (lv_init rt mt LV_FIRST a Hpw im ss s x sa f _ d r Hsim Hfr HcA0 Eva) as [-> [nA EA]].
+        exists x, nA. split; [reflexivity|exact EA].
+      - exists (VInt 0), 1%nat. split; [reflexivity|].
+        assert (HcA0 : code_at im (m_pc s) [I2 OC_MOVEQ (PInt 0) (PLoopVar LV_FIRST)]) by exact HcA.
+        cbn [code_at] in HcA0. destruct HcA0 as [Hf0' _].
+        exact (moveq_lv_step im s LV_FIRST 0 _ d r Hf0' Hfr). }
+    destruct Hfirst as (x & nA & Evx & EA). rewrite Evx in He. cbn [sbind] in He.
+    set (sa := with_lv s LV_FIRST x kA) in *.
+    assert (Hsa : sim ss sa) by (apply sim_with_lv; exact Hsim).
+    set (lv2 := lv_set lv LV_FIRST x) in *.
+    assert (Hfra : m_frames sa = FLoop lv2 d :: r) by (unfold sa; cbn [with_lv m_frames]; rewrite Hfr; reflexivity).
+    assert (Hl2C : lv_get lv2 LV_COUNTER = Some cnt) by (unfold lv2; rewrite lv_get_set_other by reflexivity; exact HlC).
+    assert (Hl2F : lv_get lv2 LV_FIRST = Some x) by (unfold lv2; apply lv_get_set).
+    assert (Hl2I : lv_get lv2 LV_INCR = None) by (unfold lv2; rewrite lv_get_set_other by reflexivity; exact HlI).
+    destruct (cycle_calc (s_regs ss) cnt) as [incr|e] eqn:Ecalc; [|discriminate]. injection He as <- <-.
+    assert (Hfma : fetch im (m_pc sa) = Some (I2 OC_MOVE (PLoopVar LV_FIRST) (PStr v))) by exact Hfm.
+    destruct (move_first_step im ss sa v lv2 d r x Hsa Hfra Hl2F Hfma) as (sc & r' & Ec & Hsc & Hpcc & Hfrc & Her' & Hstc).
+    assert (Hcic : code_at im (m_pc sc) cycle_incr) by (rewrite Hpcc; exact Hci).
+    assert (Ecalc' : cycle_calc (s_regs (assign ss v x)) cnt = Ok incr) by (rewrite (proj1 (assign_other_fields ss v x)); exact Ecalc).
+    destruct (cycle_incr_steps im (assign ss v x) sc lv2 d r' cnt incr Hsc Hfrc Hl2C Hl2I Ecalc' Hcic)
+      as (n5 & s5 & lv5 & E5 & Hs5 & Hpc5 & Hfr5 & Hst5 & Hl5C & Hl5I).
+    split; [reflexivity|]. split; [exact (proj2 (proj2 (assign_other_fields ss v x)))|].
+    exists (nA + (1 + n5))%nat, s5, lv5, r'.
+    split.
+    { replace (@nil event) with (@nil event ++ (@nil event ++ @nil event)) by reflexivity.
+      eapply esteps_app; [exact EA|eapply esteps_app; [exact Ec|exact E5]]. }
+    split; [exact Hs5|].
+    split.
+    { rewrite Hpc5, Hpcc. unfold sa. cbn [with_lv m_pc]. fold CA. fold kA. lia. }
+    split; [exact Hfr5|]. split; [exact Her'|]. split; [rewrite Hst5, Hstc; reflexivity|].
+    split; [exact Hl5C|exact Hl5I].
+Qed.
+
 End CountWith.
